@@ -93,6 +93,55 @@ def build_native(nat):
         o = abi.String()
         return pt.Seq(s.set(pt.Txn.application_args[1]), o.set(twice(s)),
                       pt.App.globalPut(pt.Bytes("r"), pt.Concat(pt.Bytes("<"), o.get(), pt.Bytes(">"))), pt.Int(1))
+    if k == "abi_byref":
+        # an ABI-returning routine that also takes ScratchVar (by-reference) parameters at various positions
+        pos = nat.get("pos", "second")
+        nested = nat.get("nested", False)
+        if pos == "only":
+            @pt.ABIReturnSubroutine
+            def bump(v: pt.ScratchVar, *, output: abi.Uint64) -> pt.Expr:
+                return pt.Seq(v.store(v.load() + pt.Int(3)), output.set(v.load() * pt.Int(2)))
+            call = lambda a, x, y: bump(x)
+        elif pos == "first":
+            @pt.ABIReturnSubroutine
+            def bump(v: pt.ScratchVar, a: abi.Uint64, *, output: abi.Uint64) -> pt.Expr:
+                return pt.Seq(v.store(v.load() + a.get()), output.set(v.load() * pt.Int(2)))
+            call = lambda a, x, y: bump(x, a)
+        elif pos == "second":
+            @pt.ABIReturnSubroutine
+            def bump(a: abi.Uint64, v: pt.ScratchVar, *, output: abi.Uint64) -> pt.Expr:
+                return pt.Seq(v.store(v.load() + a.get()), output.set(v.load() * pt.Int(2)))
+            call = lambda a, x, y: bump(a, x)
+        elif pos == "two":
+            @pt.ABIReturnSubroutine
+            def bump(v: pt.ScratchVar, a: abi.Uint64, w: pt.ScratchVar, *, output: abi.Uint64) -> pt.Expr:
+                return pt.Seq(v.store(v.load() + a.get()), w.store(w.load() * pt.Int(10)), output.set(v.load() + w.load()))
+            call = lambda a, x, y: bump(x, a, y)
+        else:  # "noout": by-reference parameter, no output
+            @pt.ABIReturnSubroutine
+            def bump(a: abi.Uint64, v: pt.ScratchVar) -> pt.Expr:
+                return v.store(v.load() + a.get())
+            call = lambda a, x, y: bump(a, x)
+        a = abi.Uint64()
+        res = abi.Uint64()
+        x, y = pt.ScratchVar(), pt.ScratchVar()
+        setup = [a.set(_arg_n()), x.store(pt.Int(5)), y.store(pt.Int(7))]
+        use = res.set(call(a, x, y)) if pos != "noout" else call(a, x, y)
+        report = [pt.App.globalPut(pt.Bytes("r"), res.get() if pos != "noout" else pt.Int(0)),
+                  pt.App.globalPut(pt.Bytes("x"), x.load()), pt.App.globalPut(pt.Bytes("y"), y.load())]
+        if not nested:
+            return pt.Seq(*setup, use, *report, pt.Int(1))
+
+        @pt.Subroutine(pt.TealType.uint64)
+        def outer(k):
+            # the ABI routine is called from another subroutine, with an operand already on the stack
+            r2 = abi.Uint64()
+            a2 = abi.Uint64()
+            x2, y2 = pt.ScratchVar(), pt.ScratchVar()
+            inner = r2.set(call(a2, x2, y2)) if pos != "noout" else call(a2, x2, y2)
+            return pt.Seq(a2.set(k), x2.store(pt.Int(5)), y2.store(pt.Int(7)), inner,
+                          pt.Return(pt.Int(1000) + x2.load() * pt.Int(100) + y2.load() + (r2.get() if pos != "noout" else pt.Int(0))))
+        return pt.Seq(pt.App.globalPut(pt.Bytes("r"), pt.Int(100000) - outer(_arg_n())), pt.Int(1))
     if k == "abi_mixed":
         @pt.Subroutine(pt.TealType.uint64)
         def mixed(a: abi.Uint64, b: pt.Expr, c: abi.Uint8) -> pt.Expr:
@@ -164,6 +213,29 @@ def expected_native(nat, inp):
             if len(s) > 0xFFFF:
                 return ("FAIL",)
             eff.append(("gput", b"r", b"<" + s + s + b">"))
+        elif k == "abi_byref":
+            pos = nat.get("pos", "second")
+            x, y = 5, 7
+            if pos == "only":
+                x = _c(x + 3)
+                r = _c(x * 2)
+            elif pos in ("first", "second"):
+                x = _c(x + n)
+                r = _c(x * 2)
+            elif pos == "two":
+                x = _c(x + n)
+                y = _c(y * 10)
+                r = _c(x + y)
+            else:
+                x = _c(x + n)
+                r = 0
+            if nat.get("nested"):
+                tot = _c(_c(1000 + _c(x * 100)) + y + r)
+                if tot > 100000:
+                    return ("FAIL",)
+                eff.append(("gput", b"r", 100000 - tot))
+            else:
+                eff += [("gput", b"r", r), ("gput", b"x", x), ("gput", b"y", y)]
         elif k == "abi_mixed":
             v = _c(_c(n * 100) + 50 + 7)
             if v > 100000:
@@ -192,6 +264,9 @@ def programs(tier="quick"):
     out.append((2, {"kind": "abi_fib"}, ins))
     for retb in ("none", "u"):
         out.append((3, {"kind": "abi_mutual", "retb": retb}, ins))
+    for pos in ("only", "first", "second", "two", "noout"):
+        for nested in (False, True):
+            out.append((2, {"kind": "abi_byref", "pos": pos, "nested": nested}, ins))
     out.append((1, {"kind": "abi_string"}, ins))
     out.append((1, {"kind": "abi_mixed"}, ins))
     return out
